@@ -306,20 +306,100 @@ REPO_FNS = []
 
 
 def key_rule(chk, rel, q, store, fn, name, level):
-    """store: Subscript store D[key] = value inside fn; the key must mention every parameter fn reads"""
+    """store: Subscript store D[key] = value inside fn; the key must be made of every input the stored value is
+    computed from.  Inputs are the parameters of fn (and single items `params["k"]` of a parameter dict), followed
+    through locals with one definition."""
     params = [a.arg for a in fn.args.args + fn.args.kwonlyargs]
     star = [a.arg for a in (fn.args.vararg, fn.args.kwarg) if a is not None]
     params += star
-    key_names = {n.id for n in ast.walk(store.slice) if isinstance(n, ast.Name)}
-    read = set()
+    defs = {}
     for n in ast.walk(fn):
-        if isinstance(n, ast.Name) and isinstance(n.ctx, ast.Load) and n.id in params:
-            read.add(n.id)
-    missing = sorted(read - key_names)
+        if isinstance(n, ast.Assign) and len(n.targets) == 1 and isinstance(n.targets[0], ast.Name):
+            defs.setdefault(n.targets[0].id, []).append(n.value)
+        elif isinstance(n, ast.Assign):
+            for t in n.targets:
+                if isinstance(t, ast.Name):
+                    defs.setdefault(t.id, []).append(n.value)
+
+    def inputs(e, depth=0):
+        out = set()
+        if e is None or depth > 6:
+            return out
+        if isinstance(e, ast.Subscript) and isinstance(e.value, ast.Name) and e.value.id in params \
+                and isinstance(e.slice, ast.Constant) and isinstance(e.ctx, ast.Load):
+            return {f"{e.value.id}[{e.slice.value!r}]"}
+        if isinstance(e, ast.Name):
+            if e.id in params and e.id not in defs:
+                return {e.id}
+            if e.id in defs and e.id != name:
+                for v in defs[e.id]:
+                    out |= inputs(v, depth + 1)
+                if e.id in params:
+                    out.add(e.id)
+            return out
+        for c in ast.iter_child_nodes(e):
+            if isinstance(c, ast.keyword) and c.arg is None:
+                out |= {(c.value.id if isinstance(c.value, ast.Name) else "?") } if isinstance(c.value, ast.Name) and c.value.id in params else inputs(c.value, depth + 1)
+            elif isinstance(c, ast.AST):
+                out |= inputs(c, depth + 1)
+        return out
+
+    val = None
+    for n in ast.walk(fn):
+        if isinstance(n, ast.Assign) and any(t is store for t in n.targets):
+            val = n.value
+    key_in = inputs(store.slice)
+    val_in = inputs(val) if val is not None else set()
+    # control dependence: a value built from a variable that is assigned in a loop or under a condition also depends
+    # on what those conditions read (t counted up `while f(t) <= (wd + rd) / uf` depends on uf)
+    if val is not None:
+        guarded = set()
+        for c in ast.walk(fn):
+            if isinstance(c, (ast.While, ast.For, ast.If)):
+                for b in c.body + c.orelse:
+                    for x in ast.walk(b):
+                        if isinstance(x, ast.Name) and isinstance(x.ctx, ast.Store):
+                            guarded.add(x.id)
+
+        def names_of(e, depth=0, seen=None):
+            seen = set() if seen is None else seen
+            out = set()
+            for x in ast.walk(e):
+                if isinstance(x, ast.Name) and x.id not in seen:
+                    seen.add(x.id)
+                    out.add(x.id)
+                    if depth < 6:
+                        for v in defs.get(x.id, []):
+                            out |= names_of(v, depth + 1, seen)
+            return out
+        if names_of(val) & guarded:
+            for c in ast.walk(fn):
+                if isinstance(c, (ast.While, ast.If)) and not any(x is store for x in ast.walk(c.test)):
+                    # tests that only ask whether the key is present do not count
+                    if any(isinstance(x, ast.Name) and x.id == name for x in ast.walk(c.test)):
+                        continue
+                    val_in |= inputs(c.test)
+    if val is None or not val_in:
+        # fall back to everything the function reads
+        for n in ast.walk(fn):
+            if isinstance(n, ast.Name) and isinstance(n.ctx, ast.Load) and n.id in params:
+                val_in.add(n.id)
+
+    def covered(x):
+        if x in key_in:
+            return True
+        base = x.split("[")[0]
+        if "[" in x and base in key_in:
+            return True           # the whole dict is part of the key
+        return False
+    missing = sorted(x for x in val_in if not covered(x))
+    # a whole dict handed on while the key holds only some of its items: which items matter is not known here
+    partial = [x for x in missing if "[" not in x and any(k.startswith(x + "[") for k in key_in)]
+    read = val_in
     cons = f"{rel[:-3].replace('/', '.')}.{q}#cache-{name}"
-    verdict = True if not missing else False
+    verdict = True if not missing else (None if partial and len(partial) == len(missing) else False)
     extra_why = ""
-    if missing and set(missing) <= set(star) and fn.args.kwarg is not None and fn.args.kwarg.arg in missing:
+    if missing and set(missing) <= set(star) and fn.args.kwarg is not None and fn.args.kwarg.arg in missing and not partial:
         # a generic wrapper(*args, **kwargs) keyed by the positional arguments only: definite when a function it wraps
         # takes keyword arguments at all
         outer = q.split(".")[0]
@@ -333,7 +413,8 @@ def key_rule(chk, rel, q, store, fn, name, level):
             verdict = None
             extra_why = " (no wrapped function with keyword arguments was found)"
     chk.decide("C15.KEY", cons, verdict,
-               f"{level} mapping {name} is written under key `{ast.unparse(store.slice)}`; parameters read by {q}: {sorted(read)}"
+               f"{level} mapping {name} is written under key `{ast.unparse(store.slice)}` (inputs {sorted(key_in)}); the stored value "
+               f"is computed from {sorted(read)}"
                + ("" if not missing else f"; {missing} influence the stored value but are not part of the key: "
                   "a later schedule with other values receives the cached result" + extra_why), rel=rel, node=store)
     # lookups use the same key expression
@@ -352,8 +433,6 @@ def key_rule(chk, rel, q, store, fn, name, level):
         if isinstance(n, ast.Assign) and any(t is store for t in n.targets):
             val = n.value
     if isinstance(val, ast.Call):
-        arg_names = {x.id for a in val.args for x in ast.walk(a) if isinstance(x, ast.Name)}
-        extra = sorted((arg_names & set(params)) - key_names)
-        chk.decide("C15.KEY", cons + "/args", True if not extra else False,
-                   f"cached value {ast.unparse(val)} is computed from the key components" if not extra else
-                   f"cached value depends on {extra}, not part of the key", rel=rel, node=store, nontrivial=False)
+        chk.decide("C15.KEY", cons + "/args", True if not missing else verdict,
+                   f"cached value {ast.unparse(val)[:80]} is computed from the key components" if not missing else
+                   f"cached value depends on {missing}, not part of the key", rel=rel, node=store, nontrivial=False)
